@@ -295,150 +295,162 @@ func joinIv(a, b ival) ival {
 	return a
 }
 
+type stackSite struct {
+	f     *ssa.Function
+	key   string
+	pos   token.Pos
+	store *ssa.Store // for push/pop sites
+	bad   string
+	undec string
+	by    string
+}
+
+// stackAnalysis runs the counting typestate of the path stack over every
+// scanner function.
+func stackAnalysis(c *core.Ctx) []stackSite {
+	if r, ok := c.Memo["stackAnalysis"].([]stackSite); ok {
+		return r
+	}
+	m := getJSON(c)
+	if m.stackF < 0 {
+		core.Bail("no path stack field (slice with single-element append) found in the scanner state")
+	}
+	var all []stackSite
+	for _, f := range m.famList {
+		edges, _ := failEdges(f, m.fam)
+		failed := map[[2]*ssa.BasicBlock]bool{}
+		for _, e := range edges {
+			failed[[2]*ssa.BasicBlock{e.from, e.to}] = true
+		}
+		type st struct {
+			succ ival
+			all  int
+			sOK  bool
+		}
+		in := map[*ssa.BasicBlock]*st{f.Blocks[0]: {succ: ival{0, 0}, all: 0, sOK: true}}
+		work := []*ssa.BasicBlock{f.Blocks[0]}
+		results := map[string]*stackSite{}
+		var order []string
+		set := func(key string, pos token.Pos, store *ssa.Store, bad, undec, by string) {
+			r, ok := results[key]
+			if !ok {
+				r = &stackSite{f: f, key: key, pos: pos, store: store}
+				results[key] = r
+				order = append(order, key)
+			}
+			r.bad, r.undec, r.by = bad, undec, by
+		}
+		for iter := 0; len(work) > 0 && iter < 20000; iter++ {
+			b := work[0]
+			work = work[1:]
+			cur := *in[b]
+			for _, ins := range b.Instrs {
+				switch x := ins.(type) {
+				case *ssa.Store:
+					fa, ok := x.Addr.(*ssa.FieldAddr)
+					if !ok || fa.Field != m.stackF || !m.isState(fa.X.Type()) {
+						continue
+					}
+					d, k := stackEffect(x, m.stackF)
+					switch k {
+					case "push":
+						key := fmt.Sprintf("%s: push#%d", f.Name(), ordinalOfStore(f, x, m.stackF))
+						set(key, x.Pos(), x, "", "", "push")
+						cur.succ.lo += d
+						cur.succ.hi += d
+						cur.all += d
+					case "pop":
+						key := fmt.Sprintf("%s: pop#%d", f.Name(), ordinalOfStore(f, x, m.stackF))
+						if cur.all < 1 {
+							set(key, x.Pos(), x, fmt.Sprintf("pop may underflow: lower bound of stack depth relative to entry is %d here", cur.all), "", "")
+						} else {
+							set(key, x.Pos(), x, "", "", fmt.Sprintf("depth >= entry+%d", cur.all))
+						}
+						cur.succ.lo += d
+						cur.succ.hi += d
+						cur.all += d
+					default:
+						key := fmt.Sprintf("%s: stack store#%d", f.Name(), ordinalOfStore(f, x, m.stackF))
+						set(key, x.Pos(), x, "", "unrecognised store to the path stack inside the scanner ("+k+")", "")
+					}
+				case *ssa.Return:
+					key := fmt.Sprintf("%s: %s", f.Name(), returnOrdinal(x))
+					if core.IsConstInt(x.Results[0], 0) {
+						if cur.all < 0 {
+							set(key, x.Pos(), nil, "failure return may leave the stack below entry depth", "", "")
+						} else {
+							set(key, x.Pos(), nil, "", "", "failure return, depth >= entry")
+						}
+					} else if cur.sOK && (cur.succ.lo != 0 || cur.succ.hi != 0) {
+						hi := fmt.Sprint(cur.succ.hi)
+						if cur.succ.hi >= bigDelta {
+							hi = "unbounded"
+						}
+						set(key, x.Pos(), nil, fmt.Sprintf("success return leaves the path stack at entry%+d..%s: a push is not matched by a pop on this path, later keys are looked up under a stale path", cur.succ.lo, hi), "", "")
+					} else {
+						set(key, x.Pos(), nil, "", "", "success return balanced")
+					}
+				}
+			}
+			for _, sc := range b.Succs {
+				nx := cur
+				if failed[[2]*ssa.BasicBlock{b, sc}] {
+					nx.sOK = false
+				}
+				old, ok := in[sc]
+				if !ok {
+					cp := nx
+					in[sc] = &cp
+					work = append(work, sc)
+					continue
+				}
+				merged := *old
+				if nx.sOK {
+					if merged.sOK {
+						merged.succ = joinIv(merged.succ, nx.succ)
+					} else {
+						merged.succ, merged.sOK = nx.succ, true
+					}
+				}
+				if nx.all < merged.all {
+					merged.all = nx.all
+				}
+				if merged.succ.hi > 64 {
+					merged.succ.hi = bigDelta
+				}
+				if merged.succ.lo < -64 {
+					merged.succ.lo = -bigDelta
+				}
+				if merged.all < -64 {
+					merged.all = -bigDelta
+				}
+				if merged != *old {
+					*old = merged
+					work = append(work, sc)
+				}
+			}
+		}
+		for _, k := range order {
+			all = append(all, *results[k])
+		}
+	}
+	c.Memo["stackAnalysis"] = all
+	return all
+}
+
 var ruleStackBalance = &core.Rule{ID: "R10.1", Min: 25,
 	Doc: "path-stack typestate: on every success return of a scanner function pops equal pushes (callee delta 0 on success, >= 0 on failure); no pop can underflow",
 	Run: func(c *core.Ctx, s *core.Sink) {
 		m := getJSON(c)
-		if m.stackF < 0 {
-			core.Bail("no path stack field (slice with single-element append) found in the scanner state")
-		}
-		for _, f := range m.famList {
-			edges, _ := failEdges(f, m.fam)
-			failed := map[[2]*ssa.BasicBlock]bool{}
-			for _, e := range edges {
-				failed[[2]*ssa.BasicBlock{e.from, e.to}] = true
+		for _, r := range stackAnalysis(c) {
+			switch {
+			case r.undec != "":
+				s.Und(r.key, c.Pos(r.pos), r.undec)
+			case r.bad != "":
+				s.Bad(r.key, c.Pos(r.pos), r.bad)
+			default:
+				s.OK(r.key, c.Pos(r.pos), r.by)
 			}
-			type st struct {
-				succ ival
-				all  int
-				sOK  bool
-			}
-			in := map[*ssa.BasicBlock]*st{f.Blocks[0]: {succ: ival{0, 0}, all: 0, sOK: true}}
-			work := []*ssa.BasicBlock{f.Blocks[0]}
-			type siteRes struct {
-				pos    token.Pos
-				key    string
-				bad    string
-				undec  string
-				by     string
-				isStat bool
-			}
-			results := map[string]*siteRes{}
-			var order []string
-			set := func(key string, pos token.Pos, bad, undec, by string) {
-				r, ok := results[key]
-				if !ok {
-					r = &siteRes{pos: pos, key: key}
-					results[key] = r
-					order = append(order, key)
-				}
-				// latest evaluation wins (fixpoint re-visits)
-				r.bad, r.undec, r.by = bad, undec, by
-			}
-			pushN, popN := 0, 0
-			for iter := 0; len(work) > 0 && iter < 20000; iter++ {
-				b := work[0]
-				work = work[1:]
-				cur := *in[b]
-				for _, ins := range b.Instrs {
-					switch x := ins.(type) {
-					case *ssa.Store:
-						fa, ok := x.Addr.(*ssa.FieldAddr)
-						if !ok || fa.Field != m.stackF || !m.isState(fa.X.Type()) {
-							continue
-						}
-						d, k := stackEffect(x, m.stackF)
-						switch k {
-						case "push":
-							key := fmt.Sprintf("%s: push#%d", f.Name(), ordinalOfStore(f, x, m.stackF))
-							set(key, x.Pos(), "", "", "push")
-							cur.succ.lo += d
-							cur.succ.hi += d
-							cur.all += d
-						case "pop":
-							key := fmt.Sprintf("%s: pop#%d", f.Name(), ordinalOfStore(f, x, m.stackF))
-							if cur.all < 1 {
-								set(key, x.Pos(), fmt.Sprintf("pop may underflow: lower bound of stack depth relative to entry is %d here", cur.all), "", "")
-							} else {
-								set(key, x.Pos(), "", "", fmt.Sprintf("depth >= entry+%d", cur.all))
-							}
-							cur.succ.lo += d
-							cur.succ.hi += d
-							cur.all += d
-						default:
-							key := fmt.Sprintf("%s: stack store#%d", f.Name(), ordinalOfStore(f, x, m.stackF))
-							set(key, x.Pos(), "", "unrecognised store to the path stack inside the scanner ("+k+")", "")
-						}
-					case *ssa.Return:
-						key := fmt.Sprintf("%s: %s", f.Name(), returnOrdinal(x))
-						if core.IsConstInt(x.Results[0], 0) {
-							if cur.all < 0 {
-								set(key, x.Pos(), "failure return may leave the stack below entry depth", "", "")
-							} else {
-								set(key, x.Pos(), "", "", "failure return, depth >= entry")
-							}
-						} else if cur.sOK && (cur.succ.lo != 0 || cur.succ.hi != 0) {
-							hi := fmt.Sprint(cur.succ.hi)
-							if cur.succ.hi >= bigDelta {
-								hi = "unbounded"
-							}
-							set(key, x.Pos(), fmt.Sprintf("success return leaves the path stack at entry%+d..%s: a push is not matched by a pop on this path, later keys are looked up under a stale path", cur.succ.lo, hi), "", "")
-						} else {
-							set(key, x.Pos(), "", "", "success return balanced")
-						}
-					}
-				}
-				for _, sc := range b.Succs {
-					nx := cur
-					if failed[[2]*ssa.BasicBlock{b, sc}] {
-						nx.sOK = false
-					}
-					old, ok := in[sc]
-					if !ok {
-						cp := nx
-						in[sc] = &cp
-						work = append(work, sc)
-						continue
-					}
-					merged := *old
-					if nx.sOK {
-						if merged.sOK {
-							merged.succ = joinIv(merged.succ, nx.succ)
-						} else {
-							merged.succ, merged.sOK = nx.succ, true
-						}
-					}
-					if nx.all < merged.all {
-						merged.all = nx.all
-					}
-					if merged.succ.hi > 64 {
-						merged.succ.hi = bigDelta
-					}
-					if merged.succ.lo < -64 {
-						merged.succ.lo = -bigDelta
-					}
-					if merged.all < -64 {
-						merged.all = -bigDelta
-					}
-					if merged != *old {
-						*old = merged
-						work = append(work, sc)
-					}
-				}
-			}
-			for _, k := range order {
-				r := results[k]
-				switch {
-				case r.undec != "":
-					s.Und(k, c.Pos(r.pos), r.undec)
-				case r.bad != "":
-					s.Bad(k, c.Pos(r.pos), r.bad)
-				default:
-					s.OK(k, c.Pos(r.pos), r.by)
-				}
-			}
-			_ = pushN
-			_ = popN
 		}
 		// the reset routine must empty the stack (C04 also checks it); and nothing outside family/reset/entry stores it
 		for _, f := range c.SrcFuncs() {
@@ -627,7 +639,14 @@ var ruleCap = &core.Rule{ID: "R16.2", Min: 8,
 			}
 			s.Check(bad == "", fmt.Sprintf("%s: guard table for cap", g.Name()), c.Pos(g.Pos()), fmt.Sprintf("cap=%d: %d depths around the cap tabulated", cv, tested), bad)
 		}
-		// (b) depth arguments along intra-family calls
+		// (b) depth arguments along intra-family calls: never decreasing, and on every cycle through the
+		// guard function the total increase is at least 1
+		type edge struct {
+			from, to *ssa.Function
+			call     *ssa.Call
+			inc      int64
+		}
+		var es []edge
 		for _, f := range m.famList {
 			fdp := intParamIndex(f)
 			for _, ci := range core.Calls(f) {
@@ -657,13 +676,36 @@ var ruleCap = &core.Rule{ID: "R16.2", Min: 8,
 						inc = k
 					}
 				}
-				need := int64(0)
-				if f == g {
-					need = 1
+				if inc < 0 {
+					s.Bad(key, c.Pos(call.Pos()), fmt.Sprintf("depth argument %s is not the caller's depth plus a non-negative constant: the depth may decrease and the cap would never be reached", arg))
+					continue
 				}
-				s.Check(inc >= need, key, c.Pos(call.Pos()), fmt.Sprintf("depth+%d", inc),
-					fmt.Sprintf("depth argument %s does not increase (needs +%d here: every cycle of the scanner passes through %s)", arg, need, g.Name()))
+				s.OK(key, c.Pos(call.Pos()), fmt.Sprintf("depth+%d", inc))
+				es = append(es, edge{f, h, call, inc})
 			}
+		}
+		// dist[X]: minimum total increase on a path X => g
+		const inf = int64(1) << 40
+		dist := map[*ssa.Function]int64{}
+		for _, f := range m.famList {
+			dist[f] = inf
+		}
+		dist[g] = 0
+		for i := 0; i < len(m.famList)+1; i++ {
+			for _, e := range es {
+				if e.from != g && dist[e.to] < inf && e.inc+dist[e.to] < dist[e.from] {
+					dist[e.from] = e.inc + dist[e.to]
+				}
+			}
+		}
+		for _, e := range es {
+			if e.from != g || dist[e.to] >= inf {
+				continue
+			}
+			total := e.inc + dist[e.to]
+			key := fmt.Sprintf("cycle %s -> %s -> ... -> %s via %s", g.Name(), e.to.Name(), g.Name(), callOrdinal(e.call))
+			s.Check(total >= 1, key, c.Pos(e.call.Pos()), fmt.Sprintf("depth grows by at least %d per cycle", total),
+				fmt.Sprintf("on the recursion cycle through %s the depth argument grows by %d in total: nesting of that kind is never counted, the cap is not reached and the stack grows with the input", e.to.Name(), total))
 		}
 		// (c) every cycle passes through the guard function: removing g from the family call graph leaves it acyclic
 		adj := map[*ssa.Function][]*ssa.Function{}
